@@ -119,6 +119,26 @@ def replay_state(st):
             except Exception as ex:
                 if L1 == float(x2.sum()):
                     bad.append(("C09.no-error", dict(exc=type(ex).__name__, **w), None, repr(ex)[:200], r))
+    # the same target at two requested totals in ONE call (an intensity series): each row has its own window
+    for k in rows[:2]:
+        r = recs[k]
+        x2 = np.asarray(r["x2"], float) / r["x2den"] / D
+        L1s = np.array([float(x2.sum()), float(x2.sum()) + 0.05, float(x2.sum())])
+        w = dict(variant="L1-series", **where0)
+        try:
+            ok_alone = True
+            try:
+                est.minimize_variance(B[k:k + 1].copy(), L1=L1s[1], l1_eps=0.02, l2_eps=L2EPS, Epsilon=("heteroscedastic" if ek == "hetero" else E.copy()))
+            except Exception:
+                ok_alone = False        # the second total is not attainable for this target: nothing to compare
+            if ok_alone:
+                X, Bp, Bvar = est.minimize_variance(np.repeat(B[k:k + 1], 3, axis=0), L1=L1s.copy(), l1_eps=0.02, l2_eps=L2EPS,
+                                                    Epsilon=("heteroscedastic" if ek == "hetero" else E.copy()))
+                tot = np.asarray(X, float).sum(1)
+                if np.any(np.abs(tot - L1s) > 0.02 + 1e-3):
+                    bad.append(("C09.l1-window", w, L1s.tolist(), tot.tolist(), r))
+        except Exception as ex:
+            bad.append(("C09.no-error", dict(exc=type(ex).__name__, **w), None, repr(ex)[:200], r))
     # default variance model from a registered filter uncertainty
     try:
         F, S = dsys.filters_sources(A)
